@@ -221,6 +221,8 @@ def make_kw_dir(r, d):
             kws.append(kws[0].swapcase())
         if kws and len(kws[0]) > 2 and r.random() < 0.4:
             kws.append(kws[0][1:])  # nested inside another keyword at a positive offset
+        if files and files[0][1] and r.random() < 0.4:
+            kws.append(files[0][1][0])  # a keyword listed in more than one file
         nl = r.choice([b"\n", b"\r\n"])
         raw = b""
         for k in kws:
